@@ -239,6 +239,14 @@ impl Prop for C04 {
                 return out;
             }
         };
+        let vocab0 = tok.get_vocab();
+        // the id space belongs to the configuration, not to what was tokenized so far: use the
+        // tokenizer (texts with special-token spellings, unknown characters) and ask again
+        let size0 = tok.vocab_size();
+        for (t, ign) in [("ab <pad> ä<unk>", false), ("", false), ("x<bos>y\u{10ffff}", true)] {
+            let _ = tok.tokenize(t, ign);
+        }
+        let _ = tok.de_tokenize(&[0, 1], false);
         let vocab = match tok.get_vocab() {
             Ok(v) => v,
             Err(e) => {
@@ -246,6 +254,7 @@ impl Prop for C04 {
                 return out;
             }
         };
+        ensure!(out, tok.vocab_size() == size0 && vocab0.as_ref().ok() == Some(&vocab), "vocab_size / get_vocab changed after the tokenizer was used ({size0} -> {})", tok.vocab_size());
         let ex = match expect(&c.kind, &c.special, &vocab) {
             Ok(e) => e,
             Err(e) => {
